@@ -29,9 +29,10 @@ class NoiseSeam:
     mode 'table'    : real generator, optionally perturbed: perturb = (seed, index tuple, delta)
     """
 
-    def __init__(self, mode='real', K=None, perturb=None):
+    def __init__(self, mode='real', K=None, perturb=None, B=1):
         self.mode = mode
         self.K = K
+        self.B = B
         self.perturb = perturb
         self.labels = {}
         self.log = []  # (size, seed)
@@ -41,13 +42,21 @@ class NoiseSeam:
         seed = int(seed)
         self.log.append((size, seed))
         if self.mode == 'labelled':
-            if size != (self.K,):
-                raise AssertionError(f"labelled noise asked for size {size}, expected {(self.K,)}")
+            # sample shape (K,) or (B, K): batch row b of the draw with seed s is the unit vector e_{idx(s) * B + b}, so
+            # rows of one draw are independent labels; a draw requested at a smaller (broadcast) shape shares labels
+            # between the rows it is later expanded to, which shows up as a non-zero cross-row covariance.
+            if size[-1] != self.K:
+                raise AssertionError(f"labelled noise asked for size {size}, expected last dimension {self.K}")
             idx = self.labels.setdefault(seed, len(self.labels))
-            if idx >= self.K:
+            B = self.B
+            if (idx + 1) * B > self.K:
                 raise AssertionError("label space exhausted")
             v = torch.zeros(size, dtype=dtype, device=device)
-            v[idx] = 1.
+            if len(size) == 1:
+                v[idx * B] = 1.
+            else:
+                for b in range(size[0]):
+                    v[b, idx * B + b] = 1.
             return v
         out = REAL_RANDN(size, dtype, device, seed)
         if self.perturb is not None and self.perturb[0] == seed and tuple(out.shape) == tuple(self.perturb[3]):
